@@ -479,6 +479,8 @@ def do_op(o, live, tmpdir, counter):
             if len(r) != N:
                 checks.append("concatenate_spectra of %d spectra has length %d" % (N, len(r)))
             for j, pt in enumerate(parts):
+                if j >= len(r):
+                    break                      # already reported above (fewer elements than inputs)
                 item = (j,) + (slice(None),) * (len(r.dims) - 1)
                 g = r[item]
                 for v in pt.dataset.variables:
